@@ -207,8 +207,9 @@ def run(tier, v):
             if "panic" in o:
                 v.violation({"run": m, "observed": "panic: " + o["panic"]})
                 continue
-            if o["timed_out"]:
-                raise vlib.ToolError("pool run %d did not drain within 30 s" % o["id"])
+            if o["timed_out"] and any(w["q"] for w in o["stats"]["workers"]):
+                raise vlib.ToolError("pool run %d did not drain within 30 s (packets still queued)" % o["id"])
+            # (timed out with empty queues: queued packets vanished; their results are missing in the comparison below)
             # the queues (4096) are far longer than any trace here, so a dropped dispatch is not an overflow: it is a packet the
             # pool refuses to route, and its sequential results will be missing below
             m["refused"] = sum(1 for x in o["outcomes"][0] if x != "queued")
